@@ -76,7 +76,7 @@ def ensure_makefile():
                        check=True)
 
 
-def build(targets=None, timeout=1500):
+def build(targets=None, timeout=900):
     """Translator + `make` (full .vo build) under the lock.
     Returns dict(ok, translator_ok, translator_msg, failed=[files], log)."""
     with Lock():
